@@ -55,7 +55,7 @@ func packViews(args ...[]byte) [][]byte {
 
 func init() {
 	props["C19"] = func(c *Ctx) {
-		c.Res.Rule = "random 16-byte challenges (and other lengths for ChallengeHash), user names, passwords of 0..256 characters (ASCII and multi-byte UTF-8 incl. 4-byte code points, leading and inner byte-order marks, NUL, U+FFFD), all byte arguments passed as adjacent views of one buffer with spare capacity while the requests carry the original values, 24-byte and wrong-sized NT responses, 16-byte and wrong-sized master keys, key lengths 8/16/20, both directions; every exported function of rfc2759/rfc3079 compared with the Go-composition model and with the from-the-RFC oracle running on the Gallina SHA-1/MD4/DES/UTF-16 (independent of Go's crypto packages). non-trivial = non-ASCII or multi-block password, or a refused size"
+		c.Res.Rule = "random 16-byte challenges (and other lengths for ChallengeHash), user names, passwords of 0..256 characters (ASCII and multi-byte UTF-8 incl. 4-byte code points and 86..256 multi-byte characters = more than 256 bytes, leading and inner byte-order marks, NUL, U+FFFD), all byte arguments passed as adjacent views of one buffer with spare capacity while the requests carry the original values, 24-byte and wrong-sized NT responses, MakeKey called again with the same NT response and another password, 16-byte and wrong-sized master keys, key lengths 8/16/20, both directions; every exported function of rfc2759/rfc3079 compared with the Go-composition model and with the from-the-RFC oracle running on the Gallina SHA-1/MD4/DES/UTF-16 (independent of Go's crypto packages). non-trivial = non-ASCII or multi-block password, or a refused size"
 		r := c.Rng.Fork()
 		n := c.N(120, 4000)
 		for i := 0; i < n; i++ {
@@ -75,6 +75,11 @@ func init() {
 			case 0:
 				pw = randUTF8(r, r.Intn(40))
 				tag = "utf8"
+				if i%16 == 0 {
+					// the protocol's limit is 256 characters, not 256 bytes
+					pw = randUTF8(r, r.Pick(86, 128, 129, 200, 256))
+					tag = "utf8-long"
+				}
 			case 1:
 				nn := r.Pick(0, 1, 13, 14, 27, 28, 55, 56, 64, 128, 256)
 				pw = make([]byte, nn)
@@ -151,10 +156,21 @@ func init() {
 					t2.I(0).B(k2)
 				}
 				c.Add(T(Req{Name: "makekey", Bs: [][]byte{ntr, pw}, Zs: []string{Z(b2i(send))}}, t2, ktag))
+				if len(ntr) == 24 && i%2 == 0 {
+					// the same NT response presented with another password (a second user, a retry): the key depends on both
+					pw2 := []byte(fmt.Sprintf("other%dpass", r.Intn(100000)))
+					t3 := &Toks{}
+					if k3, err := rfc3079.MakeKey(ntr, pw2, send); err != nil {
+						t3.E(8)
+					} else {
+						t3.I(0).B(k3)
+					}
+					c.Add(T(Req{Name: "makekey", Bs: [][]byte{ntr, pw2}, Zs: []string{Z(b2i(send))}}, t3, "makekey-same-nt"))
+				}
 			}
 		}
 		c.Trivial("ascii")
 		c.Flush()
-		c.RequireTags("ascii", "utf8", "long", "chash", "utf16", "nthash", "des7", "masterkey", "startkey", "startkey-wrong-size", "makekey", "makekey-wrong-size")
+		c.RequireTags("ascii", "utf8", "utf8-long", "makekey-same-nt", "long", "chash", "utf16", "nthash", "des7", "masterkey", "startkey", "startkey-wrong-size", "makekey", "makekey-wrong-size")
 	}
 }
